@@ -109,38 +109,7 @@ where
     where
         T: Ord,
     {
-        // every value is ranked on its own (deciding per pair is no order): what is no number at all
-        // (an empty value) first, then the numbers in their order, NaN last; whole numbers exactly
-        fn rank(text: &str) -> (u8, i128, f64) {
-            if let Ok(whole) = text.parse::<i128>() {
-                return (1, whole, 0.0);
-            }
-            let real = match text.parse::<f64>() {
-                Ok(real) => Some(real),
-                _ => parse_filesize_exact(text).map(|(numerator, denominator)| numerator as f64 / denominator as f64),
-            };
-            match real {
-                Some(real) if real.is_nan() => (2, 0, 0.0),
-                Some(real) => (1, 0, real),
-                None => (0, 0, 0.0),
-            }
-        }
-
-        let a_str = self.values[i].to_string();
-        let b_str = other.values[i].to_string();
-        let (a_class, a_whole, a_real) = rank(&a_str);
-        let (b_class, b_whole, b_real) = rank(&b_str);
-
-        if a_class != b_class {
-            return a_class.cmp(&b_class);
-        }
-
-        match (a_str.parse::<i128>().is_ok(), b_str.parse::<i128>().is_ok()) {
-            (true, true) => a_whole.cmp(&b_whole),
-            (true, false) => (a_whole as f64).partial_cmp(&b_real).unwrap_or(Ordering::Equal),
-            (false, true) => a_real.partial_cmp(&(b_whole as f64)).unwrap_or(Ordering::Equal),
-            (false, false) => a_real.partial_cmp(&b_real).unwrap_or(Ordering::Equal),
-        }
+        compare_numeric_keys(&self.values[i].to_string(), &other.values[i].to_string())
     }
 
     #[inline]
@@ -184,6 +153,41 @@ pub fn path_error_message(p: &Path, e: io::Error) {
     error_message(&p.to_string_lossy(), &e.to_string());
 }
 
+/// The order of two numeric sort keys given as text (a column value, the value of an expression,
+/// a formatted size). Every value is ranked on its own (deciding per pair is no order): what
+/// is no number at all (an empty value) first, then the numbers in their order, NaN last; whole
+/// numbers are compared exactly.
+pub fn compare_numeric_keys(a_str: &str, b_str: &str) -> Ordering {
+    fn rank(text: &str) -> (u8, i128, f64) {
+        if let Ok(whole) = text.parse::<i128>() {
+            return (1, whole, 0.0);
+        }
+        let real = match text.parse::<f64>() {
+            Ok(real) => Some(real),
+            _ => parse_filesize_exact(text).map(|(numerator, denominator)| numerator as f64 / denominator as f64),
+        };
+        match real {
+            Some(real) if real.is_nan() => (2, 0, 0.0),
+            Some(real) => (1, 0, real),
+            None => (0, 0, 0.0),
+        }
+    }
+
+    let (a_class, a_whole, a_real) = rank(a_str);
+    let (b_class, b_whole, b_real) = rank(b_str);
+
+    if a_class != b_class {
+        return a_class.cmp(&b_class);
+    }
+
+    match (a_str.parse::<i128>().is_ok(), b_str.parse::<i128>().is_ok()) {
+        (true, true) => a_whole.cmp(&b_whole),
+        (true, false) => (a_whole as f64).partial_cmp(&b_real).unwrap_or(Ordering::Equal),
+        (false, true) => a_real.partial_cmp(&(b_whole as f64)).unwrap_or(Ordering::Equal),
+        (false, false) => a_real.partial_cmp(&b_real).unwrap_or(Ordering::Equal),
+    }
+}
+
 pub fn error_message(source: &str, description: &str) {
     eprint!("{}: {}", source, description);
 }
@@ -205,10 +209,14 @@ pub fn get_extension(s: &str) -> String {
 pub fn parse_filesize_exact(s: &str) -> Option<(u128, u128)> {
     const K: u128 = 1024;
     const D: u128 = 1000;
-    const UNITS: [(&str, u128); 13] = [
+    // (the units that the formatter prints for very large sizes are read back as well)
+    const UNITS: [(&str, u128); 19] = [
         ("kib", K), ("mib", K * K), ("gib", K * K * K), ("tib", K * K * K * K),
+        ("pib", K * K * K * K * K), ("eib", K * K * K * K * K * K),
         ("kb", D), ("mb", D * D), ("gb", D * D * D), ("tb", D * D * D * D),
+        ("pb", D * D * D * D * D), ("eb", D * D * D * D * D * D),
         ("k", K), ("m", K * K), ("g", K * K * K), ("t", K * K * K * K),
+        ("p", K * K * K * K * K), ("e", K * K * K * K * K * K),
         ("b", 1),
     ];
 
